@@ -255,7 +255,7 @@ def run_check(prop, propid, tier, seed, budget_s, max_cases, level, rule, assump
     samples = []
     viols = []  # (case, violation json)
     herrs = []
-    deadline = t_start + budget_s
+    deadline = time.time() + budget_s  # the batch budget starts after the (re)build
     pool = mp.Pool(NWORKERS, initializer=_init_worker, initargs=(prop.__name__,))
     try:
         pending = []
